@@ -233,6 +233,23 @@ static void chk_batch(const std::vector<T3> &v, long long &ev, const std::string
             rep().viol(fmt("C09.wrong.batchInverse_inplace.w%u", W), s, fmt("in-place result differs from the out-of-place one at flat index %zu", i));
             return;
         }
+    // partially overlapping arrays in one buffer (results compacted k elements down or moved k elements up): res = src -/+ k
+    for (int k : {-2, -1, 1, 2})
+    {
+        if ((size_t)(k < 0 ? -k : k) >= n) continue;
+        size_t pad = 2;
+        std::vector<u64> buf(3 * (n + 2 * pad), 0x99);
+        u64 *src = buf.data() + 3 * pad, *res = src + 3 * k;
+        memcpy(src, flat_src.data(), 3 * n * sizeof(u64));
+        Goldilocks3::batchInverse((E3 *)res, (E3 *)src, n); ev++;
+        for (size_t i = 0; i < 3 * n; i++)
+            if (res[i] % PR != flat_res[i] % PR)
+            {
+                std::string s = fmt("w=%u op=batchInverse_overlap n=%zu shift=%d ", W, n, k) + arr_desc(v, compact);
+                rep().viol(fmt("C09.wrong.batchInverse_overlap.w%u", W), s, fmt("result array starting %d elements %s the source in the same buffer: flat index %zu differs from the out-of-place result", k < 0 ? -k : k, k < 0 ? "below" : "above", i));
+                return;
+            }
+    }
 }
 
 // placement: the same arrays with the result starting at every 8-byte offset modulo 64 (word offsets 0..7 from a 64-byte aligned
